@@ -5,13 +5,16 @@
 package column
 
 import (
+	"io"
 	"math"
 	"reflect"
 	"sync"
+	"time"
 
 	"github.com/kelindar/bitmap"
 	"github.com/kelindar/column/commit"
 	"github.com/kelindar/smutex"
+	"github.com/klauspost/compress/s2"
 	"github.com/tidwall/btree"
 )
 
@@ -48,6 +51,10 @@ func vNondet[T any]() (v T) { return }
 
 // vHavocRange: the elements of the slice take unknown values (a model then states what it knows about them).
 func vHavocRange(s any) {}
+
+// vCallAnon calls an anonymous function of the code under contract by its SSA name, binding its captured variables
+// to the given variables (verifier only; it has no run-time meaning).
+func vCallAnon(name string, captured []any, args ...any) {}
 
 func vImplies(a, b bool) bool { return !a || b }
 
@@ -393,3 +400,89 @@ func vModelBTreeDelete(t *btree.BTreeG[sortIndexItem], item sortIndexItem) (sort
 	vTreeLastDel = item
 	return vNondet[sortIndexItem](), vNondet[bool]()
 }
+
+// ---------------------------------------------------------------------------------------------
+// Time (C17): the clock is an unknown instant vNow (nanoseconds since the epoch, non-negative, far from overflow);
+// time.Time arithmetic uses the real library code.
+
+var vNow int64
+
+// vMkTime / vTimeNanos: time.Time seen as a number of nanoseconds since the epoch (monotonic reading, location
+// and the second/nanosecond normalisation of the library are not modelled).
+func vMkTime(nanos int64) time.Time { return time.Unix(0, nanos) }
+func vTimeNanos(t time.Time) int64  { return t.UnixNano() }
+
+//@ model time.Now
+func vModelTimeNow() time.Time { return vMkTime(vNow) }
+
+//@ model time.Unix
+func vModelTimeUnix(sec, nsec int64) time.Time { return vMkTime(sec*1000000000 + nsec) }
+
+//@ model time.(Time).After
+func vModelTimeAfter(t, u time.Time) bool { return vTimeNanos(t) > vTimeNanos(u) }
+
+//@ model time.(Time).UnixNano
+func vModelTimeUnixNano(t time.Time) int64 { return vTimeNanos(t) }
+
+//@ model time.(Time).Add
+func vModelTimeAdd(t time.Time, d time.Duration) time.Time { return vMkTime(vTimeNanos(t) + int64(d)) }
+
+//@ model time.(Time).Sub
+func vModelTimeSub(t, u time.Time) time.Duration { return time.Duration(vTimeNanos(t) - vTimeNanos(u)) }
+
+//@ model time.(Duration).Nanoseconds
+func vModelDurationNanos(d time.Duration) int64 { return int64(d) }
+
+var (
+	vDidDeleteAt  int
+	vLastDeleteAt uint32
+)
+
+// ---------------------------------------------------------------------------------------------
+// Files and streams around Snapshot (C14): ghost counts of open descriptors and of temporary files on disk; every
+// operation that can fail returns an arbitrary error or nil.
+
+var (
+	vOpenFiles    int
+	vTempFiles    int
+	vOpenTempErr  error // ghost: what the last OpenTemp returned
+	vCopyErr      error // ghost: what the last Log.Copy returned
+	vWriteErr     error // ghost: what the last writeState returned
+	vCopies       int
+)
+
+//@ model commit.OpenTemp
+func vModelOpenTemp() (*commit.Log, error) {
+	vOpenTempErr = vNondet[error]()
+	if vOpenTempErr != nil {
+		return nil, vOpenTempErr
+	}
+	vOpenFiles++
+	vTempFiles++
+	return new(commit.Log), nil
+}
+
+//@ model commit.(*Log).Name
+func vModelLogName(l *commit.Log) string { return vNondet[string]() }
+
+//@ model commit.(*Log).Close
+func vModelLogClose(l *commit.Log) error {
+	vOpenFiles--
+	return vNondet[error]()
+}
+
+//@ model commit.(*Log).Copy
+func vModelLogCopy(l *commit.Log, dst io.Writer) error {
+	vCopies++
+	vCopyErr = vNondet[error]()
+	return vCopyErr
+}
+
+//@ model os.Remove
+func vModelOsRemove(name string) error {
+	vTempFiles--
+	return vNondet[error]()
+}
+
+//@ model s2.NewWriter
+func vModelS2NewWriter(w io.Writer, opts ...s2.WriterOption) *s2.Writer { return new(s2.Writer) }
